@@ -817,6 +817,15 @@ def eng_wait_enum(ctx):
     return ctx.seq("wait-enum", cases, relevant=WAIT_OPS, triggers={"SR", "JOIN"}, monitor=M.mon_wait)
 
 
+def eng_burst_shapes(ctx):
+    cases = gen.burst_shape_cases(range(ctx.n(80, 1500)))
+    return ctx.seq("burst-shapes", cases, relevant={"CT", "CS"}, triggers={"JOIN"}, monitor=mon_burst, always_monitor=True)
+
+
+def mon_burst(ops, lines):
+    return M.mon_no_hang(ops, lines) or M.mon_release(ops, lines)
+
+
 def eng_delete_release(ctx):
     cases = gen.delete_release_cases(range(ctx.n(12, 200)))
     return ctx.seq("delete-release", cases, relevant=WAIT_OPS | {"GS", "LTS"}, triggers={"DS"}, monitor=M.mon_release)
@@ -827,14 +836,22 @@ def eng_cancel_woken(ctx):
     return ctx.seq("cancel-woken", cases, triggers={"JOIN"}, monitor=M.mon_wait, always_monitor=True, model_free=True)
 
 
-reg("C06", [eng_wait_enum, eng_wait_random(M.mon_wait, {"SR", "JOIN"}), eng_cancel_woken],
+def eng_woken_dropped(ctx):
+    cases = gen.woken_dropped_cases() if not ctx.thorough else \
+        gen.woken_dropped_cases(fills=tuple(range(0, 34)), polls=(0, 1, 2, 3, 4, 6))
+    return ctx.seq("woken-dropped", cases, triggers={"XP"}, monitor=M.mon_wait, always_monitor=True, model_free=True)
+
+
+reg("C06", [eng_wait_enum, eng_wait_random(M.mon_wait, {"SR", "JOIN"}), eng_cancel_woken, eng_woken_dropped],
     rule="wait-enum: every combination of up to three waiting consumers (stream limit 1 / stream limit 10 / blocked "
          "Pull limit 1 / blocked Pull limit 5) x five sequences of availability events (publish 1/3/0, nack, expiry, "
          "ack), every consumer and STATS observed after each event; wait-random: random scripts with several "
          "streams and blocked Pulls per subscription, deletions and expiry; cancel-woken: two blocked Pulls, a Publish "
          "wakes the older one which is cancelled k scheduler yields later (k = 0..59/159, with and without 20 other calls "
-         "queued on the subscription) - no model comparison, the lost-wake-up monitor reads every case. non-trivial = a "
-         "waiting consumer received messages",
+         "queued on the subscription) - no model comparison, the lost-wake-up monitor reads every case; woken-dropped: "
+         "the unary Pull handler itself polled by the harness, woken by a Publish, then with 0..24 (thorough 0..33) "
+         "requests put into the subscription's mailbox polled k times and dropped, a second blocked Pull or a stream "
+         "waiting behind it (the schedule of C06_refuted_cancel_owing). non-trivial = a waiting consumer received messages",
     monitor=M.mon_wait, title="Waiting consumers are woken when a message becomes available", design_ref="7/C06",
     technique="Coq: the serving loop of the quiescent model terminates by exhaustion of messages or of waiters "
               "(induction on fuel with the explicit measure), availability always makes the actor run; differential "
@@ -849,7 +866,7 @@ reg("C06", [eng_wait_enum, eng_wait_random(M.mon_wait, {"SR", "JOIN"}), eng_canc
                "covered by a theorem (the concurrent small-step model of Notify is not built); the correspondence "
                "runs exercise the real Notify only at quiescence granularity with seeded select! order.")
 
-reg("C12", [eng_delete_release, eng_wait_random(M.mon_release, {"DS"})],
+reg("C12", [eng_delete_release, eng_wait_random(M.mon_release, {"DS"}), eng_burst_shapes],
     rule="delete-release: per runtime seed, DeleteSubscription with two streams (request side open / closed), a blocked "
          "Pull, consumers of another subscription, and (variants) ack/nack/pull/get/publish calls started without "
          "letting the runtime settle, then every consumer observed; wait-random as for C06. non-trivial = a "
@@ -937,6 +954,66 @@ def eng_abandon(ctx):
         st["samples"].append({"stream": "abandon", "case": cid, "ops": [decode_line(o)[:160] for o in ops[:12]],
                               "impl": [decode_line(l)[:160] for l in impl.get(cid, [])[:12]]})
     return out
+
+
+CONC_NOTE = ("The theorems are about a small-step Coq model of the actors (bounded FIFO mailboxes, one request per actor "
+             "turn, client tasks that may be dropped at any pending point, the spawned attach task); it is hand-written "
+             "from the Rust sources named in its header and is NOT trace-tied to the code: what ties it are (a) the "
+             "refutation theorems for the pinned code, whose schedules were replayed on the implementation and found to "
+             "fail there as predicted (findings/replays), and (b) the streams below, which run the real server under "
+             "bursts / abandoned futures on every check.")
+
+
+def eng_burst(ctx):
+    cases = gen.burst_cases(range(ctx.n(80, 1500)))
+    out = ctx.seq("burst", cases, relevant={"CT", "CS"}, triggers={"JOIN"}, monitor=M.mon_no_hang, always_monitor=True)
+    if out:
+        return out
+    return eng_burst_shapes(ctx)
+
+
+
+
+reg("C16", [eng_abandon, eng_burst],
+    rule="abandon: the library-level future of CreateSubscription / DeleteSubscription / Publish / Pull / Acknowledge / "
+         "DeleteTopic polled k times (y scheduler yields in between) and dropped, with the target actor's mailbox empty "
+         "or saturated (0/16/24 pending requests); then Get/List/STATS/Publish/Pull probes, expiry, and re-creation of "
+         "every name. Each case must be indistinguishable, line by line, from the sequential model having completed the "
+         "request or never received it; mon_abandon reads half-created subscriptions and wedged calls off the answers. "
+         "non-trivial = the future was really dropped before completion",
+    monitor=M.mon_abandon, title="Abandoned requests have all-or-nothing effect", design_ref="7/C16",
+    technique="Coq: small-step actor model with a drop step enabled at every pending point; attachment invariant at "
+              "quiescent states, progress after any continuation, mailbox effect theorems; correspondence: abandoned "
+              "futures on the real code against the two alternatives of the sequential model",
+    level_text="Proved for the actor model (any number of topics, subscriptions, clients; any capacity >= 1; drops anywhere): "
+               "at every quiescent reachable state every existing, undeleted subscription of a live topic is attached; "
+               "after any continuation with drops the server still makes progress whenever something is outstanding; a "
+               "queued request is handled exactly once or (if its target exits) answered with an error, whatever happens "
+               "to its caller; a drop changes only the dropped task. " + CONC_NOTE,
+    level_note="PARTIAL: 'messages handed to an abandoned consumer are redelivered after their deadline' is covered by the "
+               "sequential model (C04 expiry theorems: a lease does not depend on who holds it) and by the abandon stream, "
+               "not by the actor model, whose data is abstract. The actor model also shows a residual race it cannot "
+               "exhibit on the implementation (stale attachment when a Delete overtakes the attach of a just-created "
+               "subscription, DESIGN 7/C16).")
+
+reg("C07", [eng_burst, eng_abandon],
+    rule="burst: 17-70 calls (Get/Pull/Ack/List, one or two DeleteSubscription, one or two Publish, sometimes DeleteTopic) "
+         "started without letting the runtime settle, seeded select!/scheduling order; after settling every call must "
+         "have an answer and the server must still answer Get/Publish/Pull/List (mon_no_hang on every case; the harness "
+         "turns a call that never returns into !HANG). non-trivial = more calls than a mailbox holds",
+    monitor=M.mon_no_hang, title="Every request terminates: no deadlock between topic and subscription actors",
+    design_ref="7/C07",
+    technique="Coq: small-step actor model; progress theorem (some server step is enabled whenever anything is "
+              "outstanding), explicit decreasing measure (bounded work), refutation for the pinned code; correspondence: "
+              "bursts larger than the mailboxes on the real server",
+    level_text="Proved for the actor model (any number of topics, subscriptions and clients, any mailbox capacity >= 1, "
+               "arrivals and drops at any time): with the draining delete some server-side step is enabled whenever "
+               "anything is outstanding; every server-side step decreases an explicit measure, so the work between two "
+               "environment events is bounded and ends in a state with nothing outstanding; for the pinned code the "
+               "deadlock state is reachable (capacity 2 and 16). " + CONC_NOTE,
+    level_note="PARTIAL: the blocking Pull's own wait limit and the processing of StreamingPull control messages are "
+               "consumers of ONE subscription and live in the ConcSub model (C06/C12: internal_terminates, C12_progress); "
+               "fairness of the tokio scheduler (an enabled step is eventually taken) is assumed, not modelled.")
 
 
 def eng_concurrent_publish(ctx):
